@@ -627,7 +627,7 @@ def finished_producer_lines(ctx):
 
 
 def run(ctx):
-    ctx.check_proofs(["MPilot.Props.C11", "MPilot.Props.C11Exact", "MPilot.Props.C11Nodes", "MPilot.Props.C13Cli"])
+    ctx.check_proofs(["MPilot.Props.C11", "MPilot.Props.C11Exact", "MPilot.Props.C11Nodes", "MPilot.Props.C11End", "MPilot.Props.C13Cli"])
     model = common.Model()
     rng = ctx.rng
     # (a) node lines of renderings (real vs true lines vs model)
